@@ -69,11 +69,24 @@ pub fn exec(line: &str, _model: &mut Model) -> Option<Exec> {
     let mut hs: Vec<H> = vec![];
     let mut out: Vec<String> = vec![];
     let mut fail: Option<String> = None;
+    let mut model_calls: Vec<String> = vec![];
     let before = LIVE.load(Ordering::Relaxed);
     for c in &calls {
         let p: Vec<&str> = c.split(':').collect();
+        model_calls.push(c.to_string());
         unsafe {
             match p[0] {
+                "W" => { let v = bp7_working(); out.push((v == 23).to_string()); if v != 23 && fail.is_none() { fail = Some(format!("bp7_working() returned {}", v)); } }
+                "R" => {
+                    // helper_rnd_bundle: a buffer holding an encoded, valid bundle; the model is told the bytes
+                    let b = counted(|| helper_rnd_bundle());
+                    let content = buf_content(b);
+                    let okb = content.as_ref().and_then(|v| Bundle::try_from(v.as_slice()).ok()).map(|x| x.validate().is_ok()).unwrap_or(false);
+                    if !okb && fail.is_none() { fail = Some("helper_rnd_bundle did not return the encoding of a valid bundle".into()); }
+                    out.push(format!("buf{}:{}", hs.len(), content.as_ref().map(|v| hex(v)).unwrap_or("null".into())));
+                    *model_calls.last_mut().unwrap() = format!("R:{}", content.map(|v| hex(&v)).unwrap_or("-".into()));
+                    hs.push(H::Buffer(b));
+                }
                 "T" => { let b = counted(|| bp7_buffer_test()); out.push(format!("buf{}:{}", hs.len(), buf_content(b).map(|v| hex(&v)).unwrap_or("null".into()))); hs.push(H::Buffer(b)); }
                 "D" => {
                     let mut bytes = unhex(p.get(1)?)?;
@@ -142,6 +155,7 @@ pub fn exec(line: &str, _model: &mut Model) -> Option<Exec> {
     let mut e = Exec::new(format!("ok {}", out.join(" ")));
     e.oracle_fail = fail;
     e.tags.push(format!("complete:{}", all_freed));
+    if model_calls.iter().any(|c| c.starts_with("R:")) { e.model_line = Some(format!("ffi {}", model_calls.join(";"))); }
     Some(e)
 }
 
@@ -157,7 +171,7 @@ pub fn generate(ctx: &mut Ctx, rep: &mut Report, emit: &mut dyn FnMut(&mut Ctx, 
         let n = 1 + rng.below(8);
         for _ in 0..n {
             match rng.below(10) {
-                0 => { calls.push("T".into()); live_bufs.push(next); next += 1; }
+                0 => { if rng.chance(1, 3) { calls.push("R".into()); } else { calls.push("T".into()); } live_bufs.push(next); next += 1; if rng.chance(1, 10) { calls.push("W".into()); } }
                 1..=4 => {
                     // decode: valid bundle, mutated bundle, random bytes, empty
                     let bytes = match rng.below(8) {
